@@ -60,6 +60,10 @@ func runFuncs(cfg *RunCfg, keys []string) int {
 	var results []*UnitResult
 	for _, k := range keys {
 		if fi, ok := prog.Funcs[k]; ok {
+			if os.Getenv("VERIF_SHOW_MODSET") != "" {
+				fmt.Printf("modset %s: %v\n", k, sortedKeys(prog.ModSets[fi.Obj.Origin()]))
+				continue
+			}
 			results = append(results, VerifyFunc(prog, fi, cfg.Tier))
 			continue
 		}
